@@ -1,7 +1,7 @@
 SPECIFICATION Spec
 CONSTANTS N = 3
   MaxArr = 2
-  Cycles = 3
+  Cycles = 2
   Drops = {0, 1, 2}
   CharUsers = {0, 3}
   Extras = {"none", "err1", "aerr1", "exec1", "tick", "conn"}
